@@ -33,10 +33,19 @@ pub fn uninstall() {
 }
 
 /// Stand-in for [::tokio::net::TcpStream].
-pub struct VerifTcpStream(Box<dyn VerifIo>);
+pub struct VerifTcpStream(Box<dyn VerifIo>, SocketAddrV4);
 
 impl VerifTcpStream {
-    pub async fn connect(addr: SocketAddrV4) -> io::Result<Self> {
+    /// Same signature as [::tokio::net::TcpStream::connect]; the first IPv4
+    /// address the argument resolves to is handed to the connector.
+    pub async fn connect<A: ::tokio::net::ToSocketAddrs>(addr: A) -> io::Result<Self> {
+        let addr = ::tokio::net::lookup_host(addr)
+            .await?
+            .find_map(|a| match a {
+                ::std::net::SocketAddr::V4(a) => Some(a),
+                _ => None,
+            })
+            .ok_or_else(|| io::Error::new(io::ErrorKind::InvalidInput, "zvt_verif: no IPv4 address"))?;
         let fut = CONNECTOR.with(|c| match c.borrow_mut().as_mut() {
             Some(connector) => Ok(connector(addr)),
             None => Err(io::Error::new(
@@ -44,7 +53,33 @@ impl VerifTcpStream {
                 "zvt_verif: no connector installed",
             )),
         })?;
-        Ok(Self(fut.await?))
+        Ok(Self(fut.await?, addr))
+    }
+
+    // The socket options code may want to set; they have no effect here.
+
+    pub fn set_nodelay(&self, _nodelay: bool) -> io::Result<()> {
+        Ok(())
+    }
+
+    pub fn nodelay(&self) -> io::Result<bool> {
+        Ok(true)
+    }
+
+    pub fn set_ttl(&self, _ttl: u32) -> io::Result<()> {
+        Ok(())
+    }
+
+    pub fn set_linger(&self, _dur: Option<::std::time::Duration>) -> io::Result<()> {
+        Ok(())
+    }
+
+    pub fn peer_addr(&self) -> io::Result<::std::net::SocketAddr> {
+        Ok(::std::net::SocketAddr::V4(self.1))
+    }
+
+    pub fn local_addr(&self) -> io::Result<::std::net::SocketAddr> {
+        Ok(::std::net::SocketAddr::V4(SocketAddrV4::new(::std::net::Ipv4Addr::LOCALHOST, 0)))
     }
 }
 
